@@ -25,6 +25,26 @@ CHECKS = {
     technique='Hypothesis sweep of every non-mutator in the live table with shape tables; deep before/after snapshot oracle (structure, order, types, identity)',
     text='Every non-mutating builtin in the live table is called directly and through eval (alone, piped, inside map, with host-supplied objects) with arguments from per-builtin shape tables; a deep snapshot including identities of nested containers must be unchanged afterwards. Exploration.',
     note='Trusted: the list of seven declared mutators from the property statement.'),
+ 'C03': dict(
+    technique='Hypothesis operation sequences from host containers around the cap; run-time monitor invariant (no container beyond the bound) and at-cap exactness on wrapped mutators',
+    text='Generated sequences of every container-producing or -mutating path (push/insert/index and compound index assignment, +, +=, *=, nested growth, doubling chains, slices, higher-order and conversion builtins, string-to-list builtins) start from host lists/dicts of length 0,1,5,9998..10001 and strings up to 12000 chars. A monitor checks every node result and every container reachable from names after each mutating statement against bound = max(10000, longest host value, longest literal) and that element-adding operations at the cap raise ParserError leaving the container unchanged. Exploration.',
+    note='Trusted: harness monitor; overwrites of existing keys at the cap may fail or succeed; known finding D2b (uncapped strings) excluded by construction and printed as KNOWN-FINDING.'),
+ 'C04': dict(
+    technique='Hypothesis operand pairs/chains over all host numeric types, one eval per step with digit-count oracle, in a CPU-capped helper process',
+    text='Operand pairs and chains (1-30 single-statement evals on a persistent mapping) over bool/int/float/Decimal/str/list operands including 1001-digit ints, 40-digit coefficients, exponents to +-999999: every arithmetic operator, compound assignment (name, list slot, dict slot) and numeric builtin; each step is judged right after it ran: * ** *= yield 28-digit Decimals or arithmetic/ParserErrors and never repeat strings/lists; other results have at most max(28, 1+widest argument) digits. Exploration.',
+    note='Trusted: digit measures (lower bound for results, upper bound for arguments, float arguments by exact expansion, float results exempt as fixed-size); known finding D4 excluded by construction; CPU-cap kills are inconclusive.'),
+ 'C05': dict(
+    technique='Hypothesis pattern/subject/flag generation biased to catastrophic backtracking; CPU-time measurement in a helper process killed by ITIMER_PROF',
+    text='Triples for match/match_groups/match_all (taken from the live table): grammar-generated and classic ReDoS patterns (nested/overlapping quantifiers, alternations, counted repeats, back-references, look-around, fuzzy, reverse, slow-to-compile padding), pumped subjects up to 10^5 chars and many-expensive-matches subjects, all flag strings. Each call runs with a cold compile cache in a helper under a CPU cap; CPU time must stay below 1.5 x compile + 0.30 s + linear terms. Exploration of a timing property: shows generated patterns are bounded and finds slow ones; cannot bound the engine for all patterns.',
+    note='Trusted: process CPU time of an isolated helper as the measure; known finding D5 (unbounded compilation) excluded by capping nested counted repeats and printed as KNOWN-FINDING.'),
+ 'C08': dict(
+    technique='Hypothesis expression trees over decimal literals; exact-rational (fractions.Fraction) oracle with own half-even 28-digit rounding',
+    text='Expression trees over + - * /, unary minus, comparisons, round/floor/ceil/abs/int/sum/min/max on literals with up to 40+40 digits (ties, values straddling the 28th digit) are compared with exact rational arithmetic rounded half-even to 28 significant digits after every operation; literals must denote exactly their text; comparisons follow rational order. Exploration.',
+    note='Trusted: Python fractions and the 25-line rounding function; magnitudes kept within 10^+-200.'),
+ 'C09': dict(
+    technique='bounded exhaustive enumeration of typed expression/statement shapes with logging probes (all truth assignments, every raising probe) + Hypothesis larger shapes; small reference evaluator of order and laziness',
+    text='All statement shapes with up to 2 (quick) / 3 (thorough) internal nodes over 32 node kinds, each under all truth assignments of its probes and with every single probe (or none) raising, are evaluated with logging host probes at the leaves; the probe log, value and type must equal those of a 60-line reference evaluator of shapes. Exhaustive within the bound; larger shapes sampled with Hypothesis.',
+    note='Trusted: the shape evaluator in sqv/props/c09.py; probes are host callables.'),
 }
 NOT_YET = 'check not built yet (work in progress; will be claimed once its check is registered)'
 
